@@ -57,6 +57,7 @@ def assigned_names(nodes):
 
 
 class ExecCore(object):
+    cur_line = 0
     """statement level; expression level and calls are mixed in by exec.py"""
 
     FEAS_TIMEOUT_MS = int(__import__('os').environ.get('PYVC_FEAS_MS', '250'))
@@ -453,6 +454,12 @@ class ExecCore(object):
                 and self.is_module_const(itv):
             return ('const', [self.lift_py(x, st) for x in itv.py])
         ty = Ty.strip_opt(itv.ty)
+        if isinstance(ty, Ty.TAny):
+            # unknown static type: it is an obligation that only lists reach this loop
+            a = va(itv.term)
+            self.oblige(st, And(is_ref(itv.term), KIND(a) == K_LIST), 'iterable-is-a-list@L%d' % (self.cur_line or 0), 'pre-of-callee')
+            st.assume(And(is_ref(itv.term), KIND(a) == K_LIST))
+            ty = Ty.TList(Ty.ANY)
         if isinstance(ty, (Ty.TList, Ty.TTuple)):
             if isinstance(ty, Ty.TTuple):
                 return ('const', [SV(st.L[va(itv.term)][i], t) for i, t in enumerate(ty.ts)])
